@@ -281,19 +281,21 @@ def fixed_sweep(ctx, g, rng, methods, sig):
         new("Section", s_)
         h.emit([2, n[s_], [n[m]]])
     TOP = (1 << 64) - 16
-    layout = [("b1", "s1", 0, 8), ("b2", "s1", 8, 8), ("b3", "s1", 12, 0), ("b4", "s2", None, 16), ("b5", "s2", 100, 4), ("b6", "s3", TOP, 12), ("b7", "s3", 10, 20)]
+    layout = [("b1", "s1", 0, 8), ("b2", "s1", 8, 8), ("b3", "s1", 12, 0), ("b4", "s2", None, 16), ("b5", "s2", 100, 4), ("b6", "s3", TOP, 12), ("b7", "s3", 10, 20),
+              ("b8", "s2", TOP + 8, 16)]                 # an interval that reaches beyond 2**64: its address is a legal uint64, the addresses of its blocks are not bounded
     for b, s_, addr, size in layout:
         new("ByteInterval", b, addr=addr, size=size)
         h.emit([2, n[b], [n[s_]]])
     blocks = [("b1", "CodeBlock", 0, 4), ("b1", "DataBlock", 0, 0), ("b1", "DataBlock", 2, 4), ("b1", "CodeBlock", 7, 1), ("b1", "DataBlock", 8, 0), ("b1", "CodeBlock", 6, 6),
               ("b2", "CodeBlock", 0, 8), ("b2", "DataBlock", 3, 1), ("b3", "CodeBlock", 0, 2), ("b4", "CodeBlock", 4, 4), ("b5", "DataBlock", 1, 2),
-              ("b6", "CodeBlock", 8, 4), ("b6", "DataBlock", 11, 3), ("b7", "CodeBlock", 0, 20), ("b7", "DataBlock", 19, 1)]
+              ("b6", "CodeBlock", 8, 4), ("b6", "DataBlock", 11, 3), ("b7", "CodeBlock", 0, 20), ("b7", "DataBlock", 19, 1),
+              ("b8", "CodeBlock", 4, 8), ("b8", "DataBlock", 8, 0), ("b8", "CodeBlock", 12, 2), ("b8", "DataBlock", 16, 0)]
     for i, (b, kind, off, size) in enumerate(blocks):
         x = h.new(kind)
         h.emit([16, x, off])
         h.emit([15, x, size])
         h.emit([2, x, [n[b]]])
-    for b, offs in (("b1", [0, 3, 7, 8, 9]), ("b2", [0, 4]), ("b4", [2]), ("b6", [0, 11, 12]), ("b7", [0, 19, 25])):
+    for b, offs in (("b1", [0, 3, 7, 8, 9]), ("b2", [0, 4]), ("b4", [2]), ("b6", [0, 11, 12]), ("b7", [0, 19, 25]), ("b8", [0, 8, 13])):
         for k, o in enumerate(offs):
             h.emit([19, n[b], o, 1 + k])
     pts_a = sorted({a + d for _, _, a, sz in layout if a is not None for d in (0, sz)} | {a + o for b, _, o, z in blocks for bb, _, a, _ in layout if bb == b and a is not None for o in (o, o + z)})
@@ -710,7 +712,9 @@ def repeated_events(ctx, g, sig):
     the collections at every scope.  Deterministic."""
     A = 0x1000
     for level in ("section", "interval"):
-        for pattern in ("out-in-out", "in-out-in", "toggle-key-4", "toggle-key-3", "move-away-and-back-and-away"):
+        for pattern in ("out-in-out", "in-out-in", "toggle-key-4", "toggle-key-3", "move-away-and-back-and-away", "huge-size", "huge-offset"):
+            if (level, pattern) == ("section", "huge-offset"):
+                continue
             ir = g.IR()
             m = g.Module(name="m", ir=ir)
             sec = g.Section(name="s", module=m)
@@ -776,6 +780,18 @@ def repeated_events(ctx, g, sig):
                 key(k1); key(k0); key(k1); key(k0); key(k1)
             elif pattern == "toggle-key-3":
                 key(k1); key(k0); key(k1)
+            elif pattern in ("huge-size", "huge-offset"):
+                # a magnitude beyond the 64-bit fields of the file format, assigned between two lookups: taken (a Python int like any
+                # other) or refused with an exception -- then nothing has changed; either way every lookup shows the structure as it is
+                for v in ((1 << 64), (1 << 64) + 5):
+                    try:
+                        if pattern == "huge-size":
+                            x.size = v
+                        else:
+                            x.offset = v
+                        ctx.count("huge_assignment_taken")
+                    except Exception:  # noqa: BLE001
+                        ctx.count("huge_assignment_refused")
             else:
                 put(None); put(owner); put(None); put(owner); key(k1); put(None)
             got, want = everything(), scan()
@@ -790,3 +806,98 @@ def repeated_events(ctx, g, sig):
                                 "interval of a section" if level == "section" else "block of an interval", pattern, nm, a, b),
                             {"level": level, "pattern": pattern, "scope": nm, "lookup": what})
                     break
+
+
+def many_members(ctx, g, sig):
+    """SCALE: collections far beyond the handful of members the random histories hold -- a section of 300 intervals, an interval of
+    300 blocks and 300 expressions, a module of 40 sections -- built in bulk and piece by piece, then thinned out (every third member
+    leaves, every fifth changes its key) with and without lookups in between; point and range lookups of every family at every scope
+    against a scan of the collections.  Deterministic."""
+    N = 300
+    for route in ("bulk", "one-by-one", "one-by-one-with-lookups"):
+        ir = g.IR()
+        m = g.Module(name="m", ir=ir)
+        y = g.Symbol("y", module=m)
+        secs = [g.Section(name="s%d" % k, module=m) for k in range(40)]
+        big = secs[0]
+        bis = [g.ByteInterval(address=0x10000 + 16 * k, size=(0 if k % 7 == 3 else 8 + k % 5)) for k in range(N)]
+        if route == "bulk":
+            big.byte_intervals.update(bis)
+        else:
+            for k, bi in enumerate(bis):
+                bi.section = big
+                if route.endswith("lookups") and k % 50 == 0:
+                    list(big.byte_intervals_on(0x10000 + 16 * k))
+        for k, s_ in enumerate(secs[1:]):
+            g.ByteInterval(address=0x100000 + 64 * k, size=32, section=s_)
+        wide = g.ByteInterval(address=0x200000, size=16 * N, section=secs[1])
+        blocks = [(g.CodeBlock if k % 2 else g.DataBlock)(offset=16 * k + k % 3, size=(0 if k % 11 == 5 else 4 + k % 9)) for k in range(N)]
+        if route == "bulk":
+            wide.blocks.update(blocks)
+        else:
+            for k, b in enumerate(blocks):
+                b.byte_interval = wide
+                if route.endswith("lookups") and k % 50 == 0:
+                    list(wide.byte_blocks_on(0x200000 + 16 * k))
+        for k in range(N):
+            wide.symbolic_expressions[16 * k + 1] = g.SymAddrConst(k, y)
+        scopes = [("interval", wide), ("section", big), ("section", secs[1]), ("module", m), ("IR", ir)]
+
+        def all_bis():
+            return [b for s_ in m.sections for b in s_.byte_intervals]
+
+        def judge(stage):
+            probes = [0x10000 + 16 * k + d for k in (0, 1, 3, 149, 150, 298, 299, 300) for d in (-1, 0, 7, 8)] + \
+                     [0x200000 + 16 * k + d for k in (0, 5, 16, 150, 255, 256, 299, 300) for d in (-1, 0, 1, 3, 12)] + [0x100000, 0x100000 + 64 * 38 + 31]
+            ranges = [range(0x10000, 0x10000 + 16 * N), range(0x200000 + 100, 0x200000 + 16 * N, 7), range(0x10000 + 8, 0x10000 + 4000, 16)]
+            for nm, sc in scopes:
+                mine = [sc] if isinstance(sc, g.ByteInterval) else (list(sc.byte_intervals) if isinstance(sc, g.Section) else all_bis())
+                for q in probes + ranges:
+                    qs = q if isinstance(q, range) else range(q, q + 1)
+                    lo, hi = qs.start, qs.stop
+                    ctx.count("many_members_lookups")
+                    want = {}
+                    # ("on": the block overlaps the hull [start, stop) of the query and is not empty; "at": its address is one of the query's)
+                    want["byte_blocks_on"] = sorted(id(b) for bi in mine if bi.address is not None for b in bi.blocks
+                                                    if b.size > 0 and max(lo, bi.address + b.offset) < min(hi, bi.address + b.offset + b.size))
+                    want["byte_blocks_at"] = sorted(id(b) for bi in mine if bi.address is not None for b in bi.blocks if (bi.address + b.offset) in qs)
+                    want["symbolic_expressions_at"] = sorted((id(bi), o) for bi in mine if bi.address is not None for o in bi.symbolic_expressions if (bi.address + o) in qs)
+                    got = {"byte_blocks_on": sorted(id(b) for b in sc.byte_blocks_on(q)), "byte_blocks_at": sorted(id(b) for b in sc.byte_blocks_at(q)),
+                           "symbolic_expressions_at": sorted((id(t[0]), t[1]) for t in sc.symbolic_expressions_at(q))}
+                    if not isinstance(sc, g.ByteInterval):
+                        want["byte_intervals_on"] = sorted(id(bi) for bi in mine if bi.address is not None and bi.size > 0 and max(lo, bi.address) < min(hi, bi.address + bi.size))
+                        want["byte_intervals_at"] = sorted(id(bi) for bi in mine if bi.address is not None and bi.address in qs)
+                        got["byte_intervals_on"] = sorted(id(b) for b in sc.byte_intervals_on(q))
+                        got["byte_intervals_at"] = sorted(id(b) for b in sc.byte_intervals_at(q))
+                    for what in want:
+                        if got[what] != want[what]:
+                            ctx.add("oracle", sig + ":many-members", "%d members (%s), %s: %s.%s(%s) gives %d results, a scan of the collections %d"
+                                    % (N, route, stage, nm, what, ("range(%#x, %#x, %d)" % (qs.start, qs.stop, qs.step)) if isinstance(q, range) else "%#x" % q, len(got[what]), len(want[what])),
+                                    {"route": route, "stage": stage, "scope": nm, "lookup": what})
+                            return False
+            los = [bi.address for bi in big.byte_intervals]
+            ext = (min(los), max(bi.address + bi.size for bi in big.byte_intervals) - min(los)) if los and all(a is not None for a in los) else (None, None)
+            if (big.address, big.size) != ext:
+                ctx.add("oracle", sig + ":many-members", "%d members (%s), %s: the section's address/size are %r, a scan gives %r" % (N, route, stage, (big.address, big.size), ext),
+                        {"route": route, "stage": stage})
+                return False
+            return True
+        ctx.case("many-members:" + route, True)
+        if not judge("as built"):
+            return
+        for k in range(0, N, 3):
+            bis[k].section = None if k % 2 else secs[2]
+            blocks[k].byte_interval = None
+        for k in range(1, N, 5):
+            bis[k].address = 0x10000 + 16 * k + 4
+            blocks[k].offset = 16 * k + 9
+        for k in range(0, N, 10):
+            wide.symbolic_expressions.pop(16 * k + 1, None)
+        if not judge("after every third member left and every fifth changed its key"):
+            return
+        big.byte_intervals.clear()
+        wide.blocks.clear()
+        big.byte_intervals.update(bis[:20])
+        wide.blocks.update(blocks[:20])
+        if not judge("after shrinking to empty and growing again"):
+            return
